@@ -18,7 +18,10 @@ def lex_cases(maxn_quick, maxn_thorough, openings=True):
         if not openings:
             return cs
         for o in CHEAP_OPENINGS:
-            for n in range(0, (4 if tier == "quick" else 5) + 1):
+            top = 4 if tier == "quick" else 5
+            if o == 12:
+                top = 4        # inside a byte order mark: 5 bytes after it do not finish in 900 s
+            for n in range(0, top + 1):
                 cs.append(dict(base, n=n, open=o))
         for o in BLOCK_OPENINGS:
             top = 3
@@ -115,6 +118,22 @@ def determinism_cases(tier, seed):
     return cs
 
 
+def compose_cases(tier, seed):
+    """hval.Compose validates every document 37 times (default set, explicit full list, each of
+    the 27 rules alone, 4 twin pairs): light pieces only."""
+    cs = [{"shape": 10}, {"shape": 11}, {"shape": 9}, {"shape": 5}, {"shape": 6}, {"shape": 4}]
+    for a3 in (0, 4):
+        cs.append({"shape": 0, "alt3": a3})
+    for top in range(3):
+        cs.append({"shape": 2, "top": top, "inline": 0, "aspread": 1, "frag2": 0, "bspread": 0})
+    # the variable-definition shape (about 2,000 paths per piece x 37 validations) does not
+    # finish in 600 s and is left out of this check
+    if tier == "thorough":
+        cs += [{"shape": 3}, {"shape": 0, "alt3": 2}]
+        cs += [{"shape": 2, "top": top, "inline": 1, "aspread": 0, "frag2": 1, "bspread": 0} for top in range(3)]
+    return cs
+
+
 VALIDATE_ASSUME = [
     "documents are token streams with symbolic names (choices among existing, non-existing and special names) and a case split over structural alternatives; they are parsed by the real parser (lexer stubbed under the engine, real lexer natively) and validated against a fixed kitchen-sink schema loaded by the real loader",
     "one representative per behaviour in name sets (e.g. Int stands for every non-composite type condition)",
@@ -188,6 +207,26 @@ CHECKS = {
                    "thorough": "all pieces of the C08 shapes"},
         "outside": "iteration orders other than the four tried; hash-seed effects not expressible as iteration order; sort sizes above 12 (sort.Slice is modelled by a stable insertion sort, the real one is unstable there); natively a difference is confirmed by 40 repetitions under Go's randomised order, which is probabilistic",
         "assumptions": VALIDATE_ASSUME + ["sort.Slice / SliceStable run the caller's less function inside an engine-side insertion sort"],
+    },
+    "C18": {
+        "units": [{"pkg": "verifh/hval", "fn": "Compose", "cases": compose_cases, "panic_prop": None}],
+        "covers": ["C18.compared-nonempty-lists", "C18.suggestion-removed"],
+        "case_timeout": {"quick": 600, "thorough": 3000},
+        "level_text": "On the symbolic documents of C08 the same document is validated with the default rule set, with the explicit list of the 27 exported standard rules in registration order, with each rule alone, and with each 'without suggestions' variant next to its standard rule. Asserted, and decided by z3 where names are symbolic: default == explicit full list (rule, message, locations, order); the errors a rule reports alone are exactly, and in the same order, the errors tagged with it in the full run, and the full run reports nothing else; a twin reports the same number of errors at the same locations, tagged with its own name, and each standard message is the twin's message followed by nothing or by a ' Did you mean' suffix.",
+        "bounds": {"quick": "11 light pieces of the document shapes (misspelt names with suggestions, fragments meeting twice, nesting, directives, same-named arguments, literals, fragments)",
+                   "thorough": "16 pieces"},
+        "outside": "subsets of rules other than singletons and the full list; the variable-definition shape and the heavier pieces of the others (37 validations per document do not finish in 600 s there)",
+        "assumptions": VALIDATE_ASSUME + ["the explicit list is the package's exported standard rules in file order, which is their registration order"],
+    },
+    "C09": {
+        "units": [{"pkg": "verifh/hval", "fn": "Links", "cases": validate_cases, "panic_prop": None}],
+        "covers": ["C09.accepted", "C09.field", "C09.argument-value", "C09.list-literal", "C09.object-literal", "C09.variable-use", "C09.directive", "C09.spread"],
+        "case_timeout": {"quick": 400, "thorough": 1200},
+        "level_text": "On every symbolic document of the C08 shapes that passes validation with the full rule set, each link the walker leaves on the tree is asserted - by identity with the loaded schema's own objects - against a resolver written from the specification's notion of parent type: field definition and parent type (incl. __typename), fragment definition of every spread, type of every inline fragment and fragment definition, directive definition / location / parent, type definition of every variable definition, expected type and definition of every argument value and of every value nested in list and input-object literals, and the variable definition of every variable use. Decided per path by z3 where names are symbolic.",
+        "bounds": {"quick": "the 70 pieces of the 12 document shapes; only documents the library accepts are inspected",
+                   "thorough": "same plus the heaviest fragment pieces"},
+        "outside": "documents larger than the shapes; operations sharing a fragment that uses a variable (which operation's definition wins is not specified); contents of custom-scalar literals (excepted by the property)",
+        "assumptions": VALIDATE_ASSUME,
     },
     "C11": {
         "units": [{"pkg": "verifh/hval", "fn": "SchemaReadOnly", "cases": validate_cases, "panic_prop": "C11"}],
